@@ -278,6 +278,17 @@ theorem accumulate_ok (d : List R) (p : Nat) (x : R) (hp : p < d.length) :
     accumulate d p x = .ok (d.set p (d[p] + x)) := by
   simp [accumulate, hp]
 
+/-- one accumulation of the loop, skipped for a self parent (whose weight is zero on a
+    well-formed tape): it succeeds, keeps the length, and adds `x · f p` to every weighted sum -/
+theorem guarded_acc (d : List R) (p i : Nat) (x : R) (hp : p < d.length) (hx : p = i → x = 0) :
+    ∃ d', (if p = i then Outcome.ok d else accumulate d p x) = .ok d' ∧ d'.length = d.length ∧
+      ∀ f : Nat → R, dotF d' f = dotF d f + x * f p := by
+  by_cases hpi : p = i
+  · refine ⟨d, by rw [if_pos hpi], rfl, fun f => ?_⟩
+    rw [hx hpi]; ring
+  · refine ⟨d.set p (d[p] + x), by rw [if_neg hpi, accumulate_ok _ _ _ hp], by simp, fun f => ?_⟩
+    exact dotF_set_add _ _ _ hp _
+
 /-- the vector the invariant is stated against: tangents below `k`, seeds from `k` on -/
 def mixF (seed : Nat → R) (tan : List R) (k : Nat) : Nat → R :=
   fun j => if j < k then tan.getD j 0 else seed j
@@ -296,23 +307,25 @@ theorem sweepFrom_correct (seed : Nat → R) (ops : Tape R) (hwf : Tape.WF ops) 
     have hlp : ops[i].leftParent ≤ i := by rcases hwfi.1 with h | h <;> omega
     have hrp : ops[i].rightParent ≤ i := by rcases hwfi.2 with h | h <;> omega
     have hia : i < adj.length := by omega
-    have h1 : accumulate adj ops[i].leftParent (adj[i] * ops[i].leftDerivative)
-        = .ok (adj.set ops[i].leftParent (adj[ops[i].leftParent] + adj[i] * ops[i].leftDerivative)) :=
-      accumulate_ok _ _ _ (by omega)
-    set d1 := adj.set ops[i].leftParent (adj[ops[i].leftParent] + adj[i] * ops[i].leftDerivative)
-      with hd1
-    have hd1len : d1.length = ops.length := by simp [hd1, hadj]
-    have h2 : accumulate d1 ops[i].rightParent (adj[i] * ops[i].rightDerivative)
-        = .ok (d1.set ops[i].rightParent (d1[ops[i].rightParent]'(by omega) + adj[i] * ops[i].rightDerivative)) :=
-      accumulate_ok _ _ _ (by omega)
-    set d2 := d1.set ops[i].rightParent (d1[ops[i].rightParent]'(by omega) + adj[i] * ops[i].rightDerivative)
-      with hd2
-    have hd2len : d2.length = ops.length := by simp [hd2, hd1len]
-    obtain ⟨adj', hs, hlen, hdot⟩ := ih (by omega) d2 hd2len
+    have hx1 : ops[i].leftParent = i → adj[i] * ops[i].leftDerivative = 0 := by
+      intro e
+      rcases hwfi.1 with h | ⟨_, h0⟩
+      · omega
+      · rw [h0, mul_zero]
+    have hx2 : ops[i].rightParent = i → adj[i] * ops[i].rightDerivative = 0 := by
+      intro e
+      rcases hwfi.2 with h | ⟨_, h0⟩
+      · omega
+      · rw [h0, mul_zero]
+    obtain ⟨d1, h1, hd1len, hdot1⟩ :=
+      guarded_acc adj ops[i].leftParent i (adj[i] * ops[i].leftDerivative) (by omega) hx1
+    obtain ⟨d2, h2, hd2len, hdot2⟩ :=
+      guarded_acc d1 ops[i].rightParent i (adj[i] * ops[i].rightDerivative) (by omega) hx2
+    obtain ⟨adj', hs, hlen, hdot⟩ := ih (by omega) d2 (by omega)
     refine ⟨adj', ?_, hlen, ?_⟩
     · simp only [sweepFrom, List.getElem?_eq_getElem hi, sweepEntry, hia, dite_true, h1, h2]
       exact hs
-    · rw [hdot, hd2, dotF_set_add _ _ _ (by omega), hd1, dotF_set_add _ _ _ (by omega)]
+    · rw [hdot, hdot2, hdot1]
       -- the other side: the mixed vector changes at position `i` only
       have hmix : dotF adj (mixF seed (tapeTan seed ops) (i + 1))
           = dotF adj (fun j => if j = i then mixF seed (tapeTan seed ops) i j
